@@ -19,6 +19,35 @@ LEVEL_NOTE = ("Not decided: model equivalence over all operation histories (≤ 
 WITNESSES = ["W2"]
 
 
+def _explicit_lookup(f):
+    """`if let Some(v) = self.values.get(name) { return Some(v) }  match self.context { Some(p) => p.get(name), None => None }`"""
+    body, tr = f.body, Tracer(f.body)
+    own = None
+    for b in sorted(body.reachable()):
+        es = switch_edges(body, tr, b)
+        if any(re.match(r"^HashMap::get\(&\*arg:self\.values, &\*arg:name\)$", canon(g.cond)) for g in es):
+            own = {g.variant: g for g in es}
+    if not own or "Some" not in own or "None" not in own:
+        return False
+    hit = body.reach_from([own["Some"].dst], avoid={own["None"].dst})
+    miss = body.reach_from([own["None"].dst], avoid={own["Some"].dst})
+    # a hit returns the entry (no context consulted)
+    if any(body.term(x)["k"] == "call" and "context" in " ".join(canon(tr.operand(a)) for a in body.term(x)["args"]) for x in hit - miss):
+        return False
+    ctx = None
+    for b in sorted(miss):
+        es = switch_edges(body, tr, b)
+        if any(re.search(r"arg:self\.context\)?$", canon(g.cond)) for g in es):
+            ctx = {g.variant: g for g in es}
+    if not ctx or "Some" not in ctx or "None" not in ctx:
+        return False
+    dele = [x for x in body.reach_from([ctx["Some"].dst], avoid={ctx["None"].dst}) if body.term(x)["k"] == "call" and is_callee(body.term(x), r"variables::Variables::get$")]
+    if len(dele) != 1:
+        return False
+    t = body.term(dele[0])
+    return canon(strip(tr.operand(t["args"][1]))) == "arg:name" and "self.context" in canon(tr.operand(t["args"][0])) and t["dest"]["l"] == 0
+
+
 def run(prog, rep):
     rep.rule("E5", "containers are mutated only by their designated functions")
     C09_n = 0
@@ -72,7 +101,11 @@ def run(prog, rep):
     rep.rule("C17.get", "lookups consult the own map and fall back to the context exactly on a miss")
     for ty, nm in (("tsg::variables::Globals", "get"), ("tsg::variables::VariableMap", "get")):
         fl = [f for f in prog.fns.values() if f.self_path == ty and f.name == nm and f.body is not None and (f.trait is None or ty.endswith("VariableMap"))]
+        explicit = [f for f in fl if not any(is_callee(t, r"Option::<T>::or_else$") for b, t in f.body.calls()) and _explicit_lookup(f)]
         fl = [f for f in fl if any(is_callee(t, r"Option::<T>::or_else$") for b, t in f.body.calls())]
+        if len(fl) != 1 and len(explicit) == 1:
+            rep.ok("C17.get", "%s::get" % ty.rsplit("::", 1)[-1], explicit[0].loc(), "own map first; on a miss the context's get(name), or None without a context (explicit form)")
+            continue
         if len(fl) != 1:
             rep.violation("C17.get", "anchor-lost:%s::get" % ty, "", "lookup function not found (%d candidates)" % len(fl))
             continue
